@@ -35,7 +35,8 @@ LEVEL_NOTE = (
 BUDGET = {"quick": 55.0, "thorough": 600.0}
 RULE = (
     "seeded generation of (world size 1..8, group size, communicate_params, communication dtype, configuration, parameter "
-    "set with >= 1 block per rank, ownership-aware presence history, rank schedule with per-run skew); non-trivial = at least "
+    "set with >= 1 block per rank, ownership-aware presence history with scheduler writes and in-place parameter rescalings on "
+    "every rank, rank schedule with per-run skew); non-trivial = at least "
     "one step compared against the serial twin on a world of >= 2 ranks; distinct = distinct (world shape, communication "
     "options, configuration feature vector, presence classes, outcome) tuples"
 )
